@@ -17,6 +17,8 @@ type AbortReport struct {
 	Problems   []AbortProblem
 	Exits      []ssa.CallInstruction // every os.Exit call of the module
 	Pairs      int
+	// HelperEffects: output effects inside output helpers (functions called only from Run)
+	HelperEffects int
 }
 
 type AbortProblem struct {
@@ -47,8 +49,56 @@ func (a *Analyzer) Abort() *AbortReport {
 	}
 	r.Run = runs[0]
 	runName := a.P.FuncName(r.Run)
-	for _, c := range Calls(r.Run) {
+	// output helpers: a module function that performs output effects and is called ONLY from the run function is part of the run
+	// function's output phase (the writing extracted into a helper): a call of it is an output effect at the call site, its own
+	// effects are not stray. It must not itself contain a may-fail module step.
+	helper := map[*ssa.Function]bool{}
+	for _, f := range a.P.Funcs {
+		if f == r.Run || f.Pkg == nil || r.Run.Pkg == nil || f.Pkg != r.Run.Pkg {
+			continue // only a function of the run function's own package can be its output helper
+		}
+		has := len(UsesStdout(f)) > 0
+		clean := true
+		for _, c := range Calls(f) {
+			if OutputEffect(c) != "" {
+				has = true
+				continue
+			}
+			if g := c.Common().StaticCallee(); g != nil && a.P.InModule(g) && errResultIndex(c.Common().Signature()) >= 0 {
+				clean = false
+			}
+		}
+		if !has || !clean {
+			continue
+		}
+		sites, inRun := 0, 0
+		for _, g := range a.P.Funcs {
+			for _, c := range Calls(g) {
+				if c.Common().StaticCallee() == f {
+					sites++
+					if g == r.Run {
+						inRun++
+					}
+				}
+			}
+		}
+		if sites > 0 && sites == inRun {
+			helper[f] = true
+			for _, c := range Calls(f) {
+				if OutputEffect(c) != "" {
+					r.HelperEffects++
+				}
+			}
+		}
+	}
+	effName := func(c ssa.CallInstruction) string {
 		if e := OutputEffect(c); e != "" {
+			return e
+		}
+		return "call of the output helper " + shortCallee(c)
+	}
+	for _, c := range Calls(r.Run) {
+		if e := OutputEffect(c); e != "" || helper[c.Common().StaticCallee()] {
 			r.Effects = append(r.Effects, c)
 			continue
 		}
@@ -63,15 +113,15 @@ func (a *Analyzer) Abort() *AbortReport {
 			r.Pairs++
 			if InstrReaches(e.(ssa.Instruction), g.(ssa.Instruction)) {
 				r.Problems = append(r.Problems, AbortProblem{"B-ABORT", runName,
-					OutputEffect(e) + " before " + shortCallee(g), a.P.InstrPos(e.(ssa.Instruction)),
+					effName(e) + " before " + shortCallee(g), a.P.InstrPos(e.(ssa.Instruction)),
 					fmt.Sprintf("output effect %s at %s can be followed by the may-fail step %s at %s: a failure there leaves partial output behind",
-						OutputEffect(e), a.P.InstrPos(e.(ssa.Instruction)), shortCallee(g), a.P.InstrPos(g.(ssa.Instruction)))})
+						effName(e), a.P.InstrPos(e.(ssa.Instruction)), shortCallee(g), a.P.InstrPos(g.(ssa.Instruction)))})
 			}
 		}
 	}
 	// B-WRITE: no output effect anywhere else
 	for _, f := range a.P.Funcs {
-		if f == r.Run {
+		if f == r.Run || helper[f] {
 			continue
 		}
 		for _, c := range Calls(f) {
